@@ -21,12 +21,16 @@ CONSTANTS
   MaxEnt = 2
   MaxPurges = 0
   MaxKills = 0
-  MaxDrops = 0
+  MaxDrops = 2
   UnnamedPurge = FALSE
   ResumeRelooks = TRUE
   AgeAtDecision = TRUE
   LoadAtomic = TRUE
   PurgeFences = TRUE
+  SaveUnderLock = TRUE
+  PurgeHoldsShard = TRUE
+  AbsentPurge = FALSE
+  Reapplies = TRUE
   Ghost = TRUE
   GenDepth = 60
 INVARIANT Emit
